@@ -119,3 +119,48 @@ example :
     npzDecode (runW npzWrite [false, true, false] (colsOf 3 []) exs).1 = some [[1, 2, 3], [10, 11, 12], [13, 14, 15]] := by decide
 
 end Sedpack.Writer
+
+namespace Sedpack.Writer
+
+/-- **The verdict on an example depends on the example alone** — not on what the shard already holds, not on earlier rejected
+calls: this is what entitles M-FILL to treat the writer as an oracle `ok : Bool` per `write_example` call (the seeded changes
+C01_g / C18_e / C18_g / C18_h are exactly writers whose verdict or effect came to depend on earlier calls). -/
+theorem C18_verdict_depends_on_the_example_only (attrs : Attrs) (ex : Ex) :
+    (∀ s s' : NpzSt, (write npzWrite attrs s ex).2 = (write npzWrite attrs s' ex).2) ∧
+    (∀ s s' : FbSt, (write fbWrite attrs s ex).2 = (write fbWrite attrs s' ex).2) ∧
+    (∀ s s' : TfSt, (write tfWrite attrs s ex).2 = (write tfWrite attrs s' ex).2) := by
+  refine ⟨?_, ?_, ?_⟩
+  · intro s s'; simp only [write]; split <;> simp only [npzWrite] <;> (try rfl); split <;> rfl
+  · intro s s'; simp only [write]; split <;> simp only [fbWrite] <;> (try rfl); split <;> rfl
+  · intro s s'; simp only [write]; split <;> simp only [tfWrite] <;> (try rfl); split <;> (try rfl); split <;> rfl
+
+/-- … and a rejected call leaves what a reader will decode unchanged, in every format (the buffer of npz, the recorded
+examples of FlatBuffers, the records and the existence of the TFRecord file) -/
+theorem C18_rejected_call_changes_nothing_decodable (attrs : Attrs) (ex : Ex) :
+    (∀ s : NpzSt, (write npzWrite attrs s ex).2 ≠ .ok → (write npzWrite attrs s ex).1 = s) ∧
+    (∀ s : FbSt, (write fbWrite attrs s ex).2 ≠ .ok → (write fbWrite attrs s ex).1.examples = s.examples) ∧
+    (∀ s : TfSt, (write tfWrite attrs s ex).2 ≠ .ok → (write tfWrite attrs s ex).1 = s) := by
+  refine ⟨?_, ?_, ?_⟩
+  · intro s h; simp only [write] at h ⊢; split <;> (try rfl)
+    rename_i hb; simp only [hb] at h
+    simp only [npzWrite] at h ⊢; split <;> (try rfl)
+    rename_i hm; simp [hm] at h
+  · intro s h; simp only [write] at h ⊢; split <;> (try rfl)
+    rename_i hb; simp only [hb] at h
+    simp only [fbWrite] at h ⊢; split <;> (try rfl)
+    rename_i hm; simp [hm] at h
+  · intro s h
+    simp only [write] at h ⊢
+    cases hb : baseCheck attrs ex 0 with
+    | some e => simp [hb]
+    | none =>
+      simp only [hb, tfWrite] at h ⊢
+      cases hm : firstMissing ex 0 with
+      | some j => simp [hm]
+      | none =>
+        simp only [hm] at h ⊢
+        cases ht : tfBuild ex 0 with
+        | some e => simp [ht]
+        | none => simp [ht] at h
+
+end Sedpack.Writer
